@@ -6,6 +6,6 @@ PROP = "C08"
 
 def run(rep, tier):
     return run_core(
-        rep, "C08", ['rel2', 'rel3', 'provrel'], ['rel2', 'rel3', 'rel4', 'provrel'], tier,
+        rep, "C08", ['rel2', 'rel3', 'provrel', 'xrel'], ['rel2', 'rel3', 'rel4', 'provrel', 'xrel'], tier,
         "relation families: for every prioritised add_conflict pair (lifted to the calling transactions) and every valuation in which both sides are fully enabled, the lower-priority side may run only if the higher one is blocked by another running conflicting transaction; non-trivial = valuations with both sides of a prioritised pair fully enabled",
         scheds=("eager",), floors={"designs_simulated": 100, "transitions": 5000, "nt_prio_both_enabled": 500})
